@@ -19,7 +19,7 @@ import sys
 
 HERE = os.path.dirname(os.path.abspath(__file__))
 VERIF = os.path.dirname(HERE)
-GEN = os.path.join(VERIF, 'lean', 'FCA', 'Generated')
+GEN = os.environ.get('VERIF_GEN_DIR') or os.path.join(VERIF, 'lean', 'FCA', 'Generated')   # override: development only
 REPO = os.environ.get('VERIF_REPO', '/repo')
 
 PREDICATES = ['implies', 'subsumes', 'properly_implies', 'properly_subsumes',
@@ -43,66 +43,133 @@ def dotted(node):
 
 
 class Tr:
-    """Expression translator; every translated term carries its kind: 'nat' or 'bool'."""
+    """Symbolic evaluator for the predicate / join / meet bodies of lattice_members.py. Values are pairs (kind, term):
+    'nat' (a bit set as Lean term), 'bool', 'path' (a dotted attribute path rooted at self / other, aliases resolved),
+    'closure' (`self.lattice._context._extents.double(<nat>)`), 'member' (`self.lattice._mapping[<closure>]`).
+    Calls of private helpers defined in the same module (`self._h(...)`, `_h(...)`: assignments then `return`) are inlined."""
 
-    def __init__(self):
-        self.env = {}
+    DOUBLE = 'self.lattice._context._extents.double'
+    MAPPING = 'self.lattice._mapping'
 
-    def expr(self, node):
+    def __init__(self, helpers=None, env=None, depth=0):
+        self.env = dict(env or {})
+        self.helpers = helpers or {}
+        self.depth = depth
+
+    def path(self, node):
+        """dotted path of a Name / Attribute chain with local aliases resolved, or None"""
+        if isinstance(node, ast.Name):
+            if node.id in self.env:
+                kind, val = self.env[node.id]
+                return val if kind == 'path' else None
+            return node.id
+        if isinstance(node, ast.Attribute):
+            base = self.path(node.value)
+            return None if base is None else base + '.' + node.attr
+        return None
+
+    def value(self, node):
         if isinstance(node, ast.Name) and node.id in self.env:
             return self.env[node.id]
         if isinstance(node, (ast.Attribute, ast.Name)):
-            path = dotted(node)
+            path = self.path(node)
+            if path is None:
+                raise Decline('unsupported attribute access %s' % ast.unparse(node))
             if path in ATTR:
-                return ATTR[path], 'nat'
+                return 'nat', ATTR[path]
+            if path.split('.')[0] in ('self', 'other'):
+                return 'path', path
             raise Decline('unsupported name %s' % path)
         if isinstance(node, ast.BinOp) and type(node.op) in BINOP:
-            (a, ka), (b, kb) = self.expr(node.left), self.expr(node.right)
+            (ka, a), (kb, b) = self.value(node.left), self.value(node.right)
             if ka != 'nat' or kb != 'nat':
-                raise Decline('bit operation on a truth value')
-            return '(%s %s %s)' % (a, BINOP[type(node.op)], b), 'nat'
+                raise Decline('bit operation on something that is not a bit set')
+            return 'nat', '(%s %s %s)' % (a, BINOP[type(node.op)], b)
         if isinstance(node, ast.Compare):
-            terms = [node.left] + list(node.comparators)
-            vals = [self.expr(t) for t in terms]
-            if any(k != 'nat' for _, k in vals):
-                raise Decline('comparison of truth values')
+            vals = [self.value(t) for t in [node.left] + list(node.comparators)]
+            if any(k != 'nat' for k, _ in vals):
+                raise Decline('comparison of something that is not a bit set')
             parts = []
-            for (a, _), op, (b, _) in zip(vals, node.ops, vals[1:]):
+            for (_, a), op, (_, b) in zip(vals, node.ops, vals[1:]):
                 if isinstance(op, ast.Eq):
                     parts.append('(%s == %s)' % (a, b))
                 elif isinstance(op, ast.NotEq):
                     parts.append('(%s != %s)' % (a, b))
                 else:
                     raise Decline('unsupported comparison %s' % type(op).__name__)
-            return ('(' + ' && '.join(parts) + ')' if len(parts) > 1 else parts[0]), 'bool'
+            return 'bool', ('(' + ' && '.join(parts) + ')' if len(parts) > 1 else parts[0])
         if isinstance(node, ast.UnaryOp) and isinstance(node.op, ast.Not):
-            return '(!%s)' % self.truthy(node.operand), 'bool'
+            return 'bool', '(!%s)' % self.truthy(node.operand)
         if isinstance(node, ast.BoolOp):
             op = ' && ' if isinstance(node.op, ast.And) else ' || '
             # truthiness of `a and b` / `a or b` is the conjunction / disjunction of the truthinesses
-            return '(' + op.join(self.truthy(v) for v in node.values) + ')', 'bool'
+            return 'bool', '(' + op.join(self.truthy(v) for v in node.values) + ')'
+        if isinstance(node, ast.Subscript):
+            if self.path(node.value) == self.MAPPING:
+                kind, term = self.value(node.slice)
+                if kind == 'closure':
+                    return 'member', term
+            raise Decline('unsupported subscript %s' % ast.unparse(node))
+        if isinstance(node, ast.Call) and not node.keywords:
+            fpath = self.path(node.func)
+            if fpath == self.DOUBLE and len(node.args) == 1:
+                kind, term = self.value(node.args[0])
+                if kind != 'nat':
+                    raise Decline('closure of something that is not a bit set')
+                return 'closure', term
+            name = None
+            if fpath is not None and fpath.startswith('self.') and fpath.count('.') == 1:
+                name, bound_self = fpath.split('.')[1], True
+            elif isinstance(node.func, ast.Name):
+                name, bound_self = node.func.id, False
+            if name and name.startswith('_') and name in self.helpers and self.depth < 4:
+                fn = self.helpers[name]
+                params = [a.arg for a in fn.args.args]
+                if fn.args.vararg or fn.args.kwarg or fn.args.kwonlyargs or fn.args.defaults:
+                    raise Decline('helper %s has an unsupported signature' % name)
+                env = {}
+                if bound_self:
+                    if not params or params[0] != 'self':
+                        raise Decline('helper %s is not a method' % name)
+                    params = params[1:]
+                if len(params) != len(node.args):
+                    raise Decline('helper %s called with %d arguments' % (name, len(node.args)))
+                for prm, arg in zip(params, node.args):
+                    env[prm] = self.value(arg)
+                return Tr(self.helpers, env, self.depth + 1).body(fn)
+            raise Decline('unsupported call %s' % ast.unparse(node)[:60])
         raise Decline('unsupported expression %s' % type(node).__name__)
 
     def truthy(self, node):
-        term, kind = self.expr(node)
-        return term if kind == 'bool' else '(%s != 0)' % term
+        kind, term = self.value(node)
+        if kind == 'bool':
+            return term
+        if kind == 'nat':
+            return '(%s != 0)' % term
+        raise Decline('truth value of %s' % kind)
 
-    def function(self, fn, want):
-        """Body = simple assignments then `return expr`; result as Lean term of kind `want`."""
+    def body(self, fn):
+        """assignments, then `return expr`: the symbolic value returned"""
         body = [s for s in fn.body if not (isinstance(s, ast.Expr) and isinstance(getattr(s, 'value', None), ast.Constant))]
+        if not body or not isinstance(body[-1], ast.Return) or body[-1].value is None:
+            raise Decline('no final return')
         for st in body[:-1]:
             if isinstance(st, ast.Assign) and len(st.targets) == 1 and isinstance(st.targets[0], ast.Name):
-                self.env[st.targets[0].id] = self.expr(st.value)
+                self.env[st.targets[0].id] = self.value(st.value)
             else:
                 raise Decline('unsupported statement %s' % type(st).__name__)
-        last = body[-1]
-        if not isinstance(last, ast.Return):
-            raise Decline('no final return')
+        return self.value(body[-1].value)
+
+    def function(self, fn, want):
+        kind, term = self.body(fn)
         if want == 'bool':
-            return self.truthy(last.value)
-        term, kind = self.expr(last.value)
-        if kind != 'nat':
-            raise Decline('expected a bit set')
+            if kind == 'bool':
+                return term
+            if kind == 'nat':
+                return '(%s != 0)' % term
+            raise Decline('expected a truth value, got %s' % kind)
+        if kind != want:
+            raise Decline('expected %s, got %s' % (want, kind))
         return term
 
 
@@ -125,31 +192,34 @@ def gen_predicates():
     lines = ['/- GENERATED by harness/extract.py from concepts/lattice_members.py — do not edit.',
              '   x = self._extent, y = other._extent, t = self.lattice.supremum._extent -/',
              'namespace FCA.Generated', '']
+    helpers = {}
+    tree0 = ast.parse(src)
+    for node in tree0.body:
+        if isinstance(node, ast.FunctionDef) and node.name.startswith('_'):
+            helpers[node.name] = node
+        if isinstance(node, ast.ClassDef) and node.name in ('OrderableMixin', 'RelationsMixin', 'TransformableMixin', 'Concept', 'Pair'):
+            for f in node.body:
+                if isinstance(f, ast.FunctionDef) and f.name.startswith('_') and not f.name.startswith('__'):
+                    if f.name in helpers:
+                        raise Decline('two private helpers named %s' % f.name)
+                    helpers[f.name] = f
     for name in PREDICATES:
         cands = [f for cls, f in by_name.get(name, []) if cls in ('OrderableMixin', 'RelationsMixin', 'Concept')]
         if len(cands) != 1:
             raise Decline('%d definitions of %s' % (len(cands), name))
-        term = Tr().function(cands[0], 'bool')
+        if [a.arg for a in cands[0].args.args] != ['self', 'other']:
+            raise Decline('signature of %s changed' % name)
+        term = Tr(helpers).function(cands[0], 'bool')
         lines.append('def %s (x y t : Nat) : Bool := %s' % (name, term))
     for name, lean in (('join', 'join_common'), ('meet', 'meet_common')):
         cands = [f for cls, f in by_name.get(name, []) if cls in ('TransformableMixin', 'Concept')]
         if len(cands) != 1:
             raise Decline('%d definitions of Concept.%s' % (len(cands), name))
-        fn = cands[0]
-        tr = Tr()
-        body = [s for s in fn.body if not (isinstance(s, ast.Expr) and isinstance(getattr(s, 'value', None), ast.Constant))]
-        # common = <expr>; extent = ...double(common); return ...mapping[extent]
-        first = body[0]
-        if not (isinstance(first, ast.Assign) and isinstance(first.targets[0], ast.Name) and first.targets[0].id == 'common'):
-            raise Decline('Concept.%s does not start with `common = …`' % name)
-        term, kind = tr.expr(first.value)
-        if kind != 'nat':
-            raise Decline('common is not a bit set')
-        rest = [ast.unparse(st) for st in body[1:]]
-        want = ['extent = self.lattice._context._extents.double(common)', 'return self.lattice._mapping[extent]']
-        if rest != want:
-            raise Decline('Concept.%s no longer closes `common` with the object closure and looks it up in its own lattice: %r' % (name, rest))
-        lines.append('def %s (x y : Nat) : Nat := %s' % (lean, term.replace(' t ', ' t ')))
+        if [a.arg for a in cands[0].args.args] != ['self', 'other']:
+            raise Decline('signature of %s changed' % name)
+        # the result must be self.lattice._mapping[self.lattice._context._extents.double(<common>)]
+        term = Tr(helpers).function(cands[0], 'member')
+        lines.append('def %s (x y : Nat) : Nat := %s' % (lean, term))
     # the operator aliases must still point at the named methods
     aliases = {'__le__': 'implies', '__ge__': 'subsumes', '__lt__': 'properly_implies', '__gt__': 'properly_subsumes',
                '__or__': 'join', '__and__': 'meet'}
@@ -714,7 +784,7 @@ def write_if_changed(path, text):
     return False
 
 
-def regenerate(log=print):
+def regenerate(log=print, dry=False):
     os.makedirs(GEN, exist_ok=True)
     if REPO not in sys.path:
         sys.path.insert(0, REPO)
@@ -730,10 +800,14 @@ def regenerate(log=print):
         except Exception as e:  # noqa: BLE001 - the source may have changed arbitrarily
             status[name] = 'declined: %s: %s' % (type(e).__name__, e)
             continue
+        if dry:     # development aid: report only, write nothing
+            old = open(path).read() if os.path.exists(path) else None
+            status[name] = 'would change' if old != text else 'identical'
+            continue
         changed = write_if_changed(path, text)
         status[name] = 'regenerated (changed)' if changed else 'regenerated (identical to the committed copy)'
     return status
 
 
 if __name__ == '__main__':
-    print(regenerate())
+    print(regenerate(dry='--dry' in sys.argv))
